@@ -13,7 +13,7 @@ LEVEL = "exploration"
 RULE = ("update_particle_best over every ordered pair of signed-cost vectors (the C01 pair alphabets) for the base class and the three "
         "algorithms; speed_constriction and each class's update_position over x in {lb-10w, lb-eps, lb, mid, ub, ub+eps, ub+10w} x v in "
         "{0, +-eps, +-w/2, +-10w, +-1e300} per box; update_velocity with 1 and 2 leaders, every draw (r1,r2,c1,c2, inertia, leader pick) at "
-        "base/0/1-2^-53 in every combination, particle and leaders on the bounds; full OMOPSO/SMPSO/PSOGA runs (N 2..4, G 1..3) with every "
+        "base/0/1-2^-53 in every combination, particle and leaders on the bounds; full OMOPSO/SMPSO/PSOGA runs (N 2..4, G 1..3; a generic bi-objective problem and one on which every design is Pareto-optimal) with every "
         "decision/pick/value draw deviating (<=1, thorough <=2), leaders inspected after every update_global_best. Non-trivial = pair "
         "with different vectors / non-zero velocity / run with a deviation; distinct = distinct case tuples.")
 ASSUMPTIONS = ["dominance between leaders is judged by the C01 reference relation on signed costs",
@@ -146,7 +146,12 @@ def velocity_body_factory(name, boxes, nleaders, xcase):
     return body
 
 
-def run_body_factory(name, N, G, seed):
+def tradeoff(v):
+    """Every design is Pareto-optimal: the leader archive grows unless it is truncated."""
+    return [v[0], 1.0 - v[0]]
+
+
+def run_body_factory(name, N, G, seed, objective="std"):
     def body(ctx):
         from .c_support import run_algorithm
         viol = []
@@ -187,8 +192,9 @@ def run_body_factory(name, N, G, seed):
                         viol.append(("C18:run:pbest-not-updated:%s" % name, "position %r not dominated by best %r but not taken" % (pos, b)))
             alg.update_particle_best = wrapped_pb
         problem, alg, exc = run_algorithm(name, ctx, seed, N, G, n_params=2, n_costs=2, bounds=[[0.0, 1.0], [-2.0, 2.0]],
-                                          prepare=prepare, shim_cfg={"extreme_values": True})
-        desc = "%s N=%d G=%d" % (name, N, G)
+                                          prepare=prepare, shim_cfg={"extreme_values": True},
+                                          f=tradeoff if objective == "tradeoff" else None)
+        desc = "%s N=%d G=%d objective=%s" % (name, N, G, objective)
         out = [(k, m + "; " + desc) for k, m in viol[:3]]
         if exc is not None:
             out.append(("C18:run:%s:exception:%s" % (name, type(exc).__name__), "%s raised %r" % (desc, exc)))
@@ -236,14 +242,14 @@ def _shard(shard, col: Collector):
                         case_extra={"name": name, "boxes": boxes, "nleaders": nleaders, "xcase": xcase})
         col.sample({"kind": "velocity", "class": name, "boxes": boxes, "draws": "every combination of base/0/1-2^-53"}, 1)
     elif kind == "run":
-        _, name, N, G, seed, bound, part, nparts = shard
-        body = run_body_factory(name, N, G, seed)
+        _, name, N, G, seed, bound, part, nparts, objective = shard
+        body = run_body_factory(name, N, G, seed, objective)
 
         def on_exec(ctx, out):
             if any(ctx.choices):
-                col.nontrivial((name, N, G, tuple(ctx.choices)))
+                col.nontrivial((name, N, G, objective, tuple(ctx.choices)))
         explore_part(body, col, part, nparts, bound=bound, sub="run", on_exec=on_exec,
-                     case_extra={"name": name, "N": N, "G": G, "seed": seed})
+                     case_extra={"name": name, "N": N, "G": G, "seed": seed, "objective": objective})
         if part == 0:
             col.sample({"kind": "run", "algorithm": name, "N": N, "G": G, "deviation_bound": bound}, 1)
 
@@ -259,7 +265,7 @@ def replay(sub, case):
         ctx, out = run_once(velocity_body_factory(case["name"], case["boxes"], case["nleaders"], tuple(case["xcase"])), case["choices"])
         return out
     if sub == "run":
-        ctx, out = run_once(run_body_factory(case["name"], case["N"], case["G"], case["seed"]), case["choices"])
+        ctx, out = run_once(run_body_factory(case["name"], case["N"], case["G"], case["seed"], case.get("objective", "std")), case["choices"])
         return out
     raise ValueError(sub)
 
@@ -276,6 +282,7 @@ def run(tier, seed):
             b = 1 if (N, G) == (4, 3) else bound
             nparts = 4 if (tier == "thorough" or (N, G) == (4, 3)) else 2
             for part in range(nparts):
-                shards.append(("run", name, N, G, seed, b, part, nparts))
+                shards.append(("run", name, N, G, seed, b, part, nparts, "std"))
+                shards.append(("run", name, N, G, seed, b, part, nparts, "tradeoff"))
     col = run_shards(_shard, shards)
     return col, {"exhaustive": col.counters.get("caps_hit", 0) == 0, "boxes": BOXES}
